@@ -246,7 +246,7 @@ theorem sortLevelZero_inv {P : Params} {c : Cmp α} (sw : StrictWeak c.lt) {s : 
       | nil => exact absurd hs h.ne
       | cons a b => exact ⟨a, b, rfl⟩
     have hw := h.weight; have hc := h.cap; have hr := h.ret_le; have hs := h.sorted; have ht := h.top
-    simp only [hL, List.headD_cons, List.tail_cons] at hw hc hr hs ht ⊢
+    simp only [hL, sortHead] at hw hc hr hs ht ⊢
     refine ⟨by simp, ?_, ?_, ?_, ?_, ?_, ?_⟩
     · simpa [weightSum, sortBy_length] using hw
     · simpa using hc
